@@ -516,11 +516,13 @@ func ruleMargin(c *Ctx) {
 					// into the block following the call that does not come through the call
 					// carries t + 7 ≤ cap(Data)
 					gkey := fmt.Sprintf("%s:grow-guard#%d", fnName(fn), n)
-					if len(b.Succs) != 1 {
-						c.fail(gkey, call.Pos(), "unexpected control flow after grow")
-						continue
+					// the block in which the buffer is used next: the single successor (the call is the last thing
+					// of a guarded branch), or this very block (the call is unconditional here: nothing of this
+					// block can bypass it)
+					m := b
+					if len(b.Succs) == 1 && fi2.instrIx[call] == len(b.Instrs)-2 {
+						m = b.Succs[0]
 					}
-					m := b.Succs[0]
 					var caps []Lin
 					for _, b2 := range fn.Blocks {
 						for _, in2 := range b2.Instrs {
@@ -535,7 +537,7 @@ func ruleMargin(c *Ctx) {
 					detail := ""
 					nBy := 0
 					for _, p := range m.Preds {
-						if p == b || b.Dominates(p) {
+						if m == b || p == b || b.Dominates(p) {
 							continue
 						}
 						nBy++
@@ -561,6 +563,9 @@ func ruleMargin(c *Ctx) {
 						for _, in3 := range b3.Instrs {
 							st, isSt := in3.(*ssa.Store)
 							if !isSt {
+								continue
+							}
+							if b3 == b && fi2.instrIx[st] < fi2.instrIx[call] {
 								continue
 							}
 							if f := fieldOfAddr(st.Addr); f == nil || f.Name() != "Data" {
@@ -657,6 +662,22 @@ func ruleShrinkPB(c *Ctx) {
 			}
 		}
 	}
+	// the same move written as  Data = append(Data[:0], Data[δ:]...)  (re-slice included)
+	appendMove := false
+	if cp == nil {
+		for _, b := range fn.Blocks {
+			for _, in := range b.Instrs {
+				if call := isBuiltinCall(in, "append"); call != nil && len(call.Call.Args) == 2 {
+					if d, ok := call.Call.Args[0].(*ssa.Slice); ok && d.Low == nil && d.High != nil && isConstZero(d.High) {
+						if p1, ok1 := recvPath(fn, d.X); ok1 && p1 == "Data" {
+							cp = call
+							appendMove = true
+						}
+					}
+				}
+			}
+		}
+	}
 	if cp == nil {
 		c.fail(name+":copy", fn.Pos(), "no copy")
 		return
@@ -664,7 +685,11 @@ func ruleShrinkPB(c *Ctx) {
 	sl, _ := cp.Call.Args[1].(*ssa.Slice)
 	okCopy := sl != nil && sl.Low != nil && sl.High == nil && fi.lin(sl.Low).eq(delta)
 	if okCopy {
-		p1, ok1 := recvPath(fn, cp.Call.Args[0])
+		dst := cp.Call.Args[0]
+		if appendMove {
+			dst = dst.(*ssa.Slice).X
+		}
+		p1, ok1 := recvPath(fn, dst)
 		p2, ok2 := recvPath(fn, sl.X)
 		okCopy = ok1 && ok2 && p1 == "Data" && p2 == "Data"
 	}
@@ -696,6 +721,9 @@ func ruleShrinkPB(c *Ctx) {
 				okOff = off0 != "" && fi.lin(st.Val).eq(linAtom(off0).add(delta))
 			case "Data":
 				if s2, ok := st.Val.(*ssa.Slice); ok && s2.Low == nil && s2.High == cp {
+					okData = true
+				}
+				if appendMove && st.Val == ssa.Value(cp) {
 					okData = true
 				}
 			}
@@ -852,12 +880,14 @@ func ruleWrapOrder(c *Ctx) {
 	fi := c.info(fn)
 	name := fnName(fn)
 	var parse, shrink, readFrom *ssa.Call
+	var parses []*ssa.Call
 	for _, b := range fn.Blocks {
 		for _, in := range b.Instrs {
 			if call, ok := in.(*ssa.Call); ok && call.Call.IsInvoke() {
 				switch call.Call.Method.Name() {
 				case "Parse":
 					parse = call
+					parses = append(parses, call)
 				case "Shrink":
 					shrink = call
 				case "ReadFrom":
@@ -870,17 +900,46 @@ func ruleWrapOrder(c *Ctx) {
 		c.fail(name+":calls", fn.Pos(), "expected calls to Parse, Shrink and ReadFrom of the wrapped parser")
 		return
 	}
+	// the values that hold "the error / the count of the latest inner Parse": the results of the Parse
+	// calls and merges of such values (a loop written with the first Parse before it carries them in φs)
+	perrs, pns := map[ssa.Value]bool{}, map[ssa.Value]bool{}
+	for _, pc := range parses {
+		if e := extractOf(pc, 1); e != nil {
+			perrs[e] = true
+		}
+		if e := extractOf(pc, 0); e != nil {
+			pns[e] = true
+		}
+	}
+	for changed := true; changed; {
+		changed = false
+		for _, ph := range fi.phis {
+			for _, set := range []map[ssa.Value]bool{perrs, pns} {
+				if set[ph] {
+					continue
+				}
+				all := len(ph.Edges) > 0
+				for _, e := range ph.Edges {
+					if !set[e] && e != ssa.Value(ph) {
+						all = false
+					}
+				}
+				if all {
+					set[ph] = true
+					changed = true
+				}
+			}
+		}
+	}
 	// Shrink before ReadFrom on every path
 	okOrder := (shrink.Block() == readFrom.Block() && fi.instrIx[shrink] < fi.instrIx[readFrom]) || (shrink.Block() != readFrom.Block() && shrink.Block().Dominates(readFrom.Block()))
 	c.check(okOrder, name+":shrink-first", readFrom.Pos(), "Shrink is called before ReadFrom on every path", "ReadFrom can run before Shrink: the buffer may still be full and the refill reads nothing")
 	// both only on err == ErrEmptyBuffer
-	perr := extractOf(parse, 1)
-	pn := extractOf(parse, 0)
 	onEmpty := false
 	for _, cd := range fi.condsAt(readFrom.Block()) {
 		cd2 := unNot(cd)
 		if bo, ok := cd2.V.(*ssa.BinOp); ok && (bo.Op == token.EQL || bo.Op == token.NEQ) {
-			if (bo.X == perr && errGlobalName(bo.Y) == "ErrEmptyBuffer") || (bo.Y == perr && errGlobalName(bo.X) == "ErrEmptyBuffer") {
+			if (perrs[bo.X] && errGlobalName(bo.Y) == "ErrEmptyBuffer") || (perrs[bo.Y] && errGlobalName(bo.X) == "ErrEmptyBuffer") {
 				if (bo.Op == token.EQL) == cd2.True {
 					onEmpty = true
 				}
@@ -901,12 +960,13 @@ func ruleWrapOrder(c *Ctx) {
 		}
 		nret++
 		switch {
-		case r.Results[1] == perr && r.Results[0] == pn:
-			// must be under err != ErrEmptyBuffer
+		case perrs[r.Results[1]] && pns[r.Results[0]]:
+			// must be under err != ErrEmptyBuffer for the very value that is returned
 			good := false
 			for _, cd := range fi.condsAt(b) {
 				cd2 := unNot(cd)
-				if bo, ok := cd2.V.(*ssa.BinOp); ok && (bo.X == perr || bo.Y == perr) && (bo.Op == token.NEQ) == cd2.True {
+				if bo, ok := cd2.V.(*ssa.BinOp); ok && (bo.X == r.Results[1] || bo.Y == r.Results[1]) && (bo.Op == token.NEQ) == cd2.True &&
+					(errGlobalName(bo.X) == "ErrEmptyBuffer" || errGlobalName(bo.Y) == "ErrEmptyBuffer") {
 					good = true
 				}
 			}
